@@ -1682,12 +1682,14 @@ theorem graph_value_many (g : List NodeDef) (hg : WFG g) (hna : HasNodeArg g) (l
 
 /-! ### reductions over the buffers (`np.sum(node)`, `np.mean(node)`, `np.histogram(node, edges)`) -/
 
-theorem applyRed_add (f : Fn) (hf : f.elementwise = false) (x y : List Int) :
+theorem applyRed_add (f : Fn) (hf : f.elementwise = false) (hsel : f ≠ Fn.sel) (x y : List Int) :
     List.zipWith (· + ·) (applyRed f x) (applyRed f y) = applyRed f (x ++ y) := by
   cases f with
   | add => simp [Fn.elementwise] at hf
   | sub => simp [Fn.elementwise] at hf
   | mul => simp [Fn.elementwise] at hf
+  | gt => simp [Fn.elementwise] at hf
+  | sel => exact absurd rfl hsel
   | sum => simp [applyRed, List.sum_append]
   | sumN => simp [applyRed, List.sum_append]
   | hist e =>
@@ -1726,7 +1728,7 @@ theorem fold_rows {ρ} (roots : List ρ) (B P : ρ → Nat → List Int) (K : Na
 sub-expression (the second operand slot holds a constant) -/
 def RedRoot (g : List NodeDef) (r : Nat) : Prop :=
   ∃ (f : Fn) (a : Nat) (c : Int), g[r]? = some (NodeDef.comp f (Arg.node a) (Arg.const c)) ∧
-    f.elementwise = false ∧ EwOn g (Reach g a)
+    f.elementwise = false ∧ f ≠ Fn.sel ∧ EwOn g (Reach g a)
 
 /-- **reductions, streamed = in memory**: folding the per-buffer results of `np.sum` / `sum_and_n` /
 `np.histogram(·, edges)` nodes over all buffers (one or several reductions computed together) gives,
@@ -1748,7 +1750,7 @@ theorem graph_reduced_value (g : List NodeDef) (hg : WFG g) (hna : HasNodeArg g)
       (∀ k, k < K → List.zipWith (· + ·) (P k) ((valAt g (k + 1) (r + 1) r).getD []) = P (k + 1)) ∧
       evalMem g (r + 1) r = some (P K) := by
     intro r hr
-    obtain ⟨f, a, c, hd, hf', hewa⟩ := hred r hr
+    obtain ⟨f, a, c, hd, hf', hsel, hewa⟩ := hred r hr
     have har : a < r := hg r _ hd a (by simp [nodeArgs, argNodes])
     obtain ⟨A, a1, a2, a3⟩ := node_chunks g hg hna lens ha (Reach g a) (fun n d hn hd m hm => Reach.step hn hd hm) hewa a
       Reach.root (by have := hroots r hr; omega)
@@ -1758,7 +1760,7 @@ theorem graph_reduced_value (g : List NodeDef) (hg : WFG g) (hna : HasNodeArg g)
       intro i h
       simp only [valAt, hd, argValWith, har, ↓reduceIte]
       rw [valAt_fuel2 g i r (a + 1) a har (by omega), a2 i h]
-      simp [applyFn, hf']
+      simp [applyFn, hf', hsel]
     refine ⟨fun k => applyRed f (A.take (k + 1)).flatten, ?_, ?_, ?_⟩
     · rw [hval 0 (by omega)]
       have : A.take 1 = [A[0]'(by omega)] := by
@@ -1767,14 +1769,14 @@ theorem graph_reduced_value (g : List NodeDef) (hg : WFG g) (hna : HasNodeArg g)
         | cons x xs => simp
       simp [this]
     · intro k hk
-      rw [hval (k + 1) (by omega), Option.getD_some, applyRed_add f hf']
+      rw [hval (k + 1) (by omega), Option.getD_some, applyRed_add f hf' hsel]
       congr 1
       rw [List.take_add_one (i := k + 1), List.getElem?_eq_getElem (by omega)]
       simp only [List.flatten_append, Option.toList_some, List.flatten_cons, List.flatten_nil, List.append_nil]
     · simp only [evalMem, hd, argValWith, har, ↓reduceIte]
       rw [evalMem_fuel2 g r (a + 1) a har (by omega), a3]
       have : A.take (K + 1) = A := List.take_of_length_le (by omega)
-      simp [applyFn, hf', this]
+      simp [applyFn, hf', hsel, this]
   -- choose the running values
   have hchoice : ∃ P : Nat → Nat → List Int, ∀ r ∈ roots,
       P r 0 = (valAt g 0 (r + 1) r).getD [] ∧
@@ -1795,6 +1797,83 @@ theorem graph_reduced_value (g : List NodeDef) (hg : WFG g) (hna : HasNodeArg g)
     congr 1
   · rw [List.map_map]
     exact List.map_congr_left (fun r hr => ((hP r hr).2.2).symm)
+
+
+
+/-! ### boolean-mask indexing of a node by a node (`node[mask_node]`) -/
+
+theorem applySel_append (x x' m m' : List Int) (h : x.length = m.length) :
+    applySel (x ++ x') (m ++ m') = applySel x m ++ applySel x' m' := by
+  simp [applySel, List.zip_append h]
+
+/-- mask selection pinned by the standard notions: it is `filter` on the zipped pairs -/
+theorem applySel_eq_filter (x m : List Int) :
+    applySel x m = ((x.zip m).filter (fun p => p.2 ≠ 0)).map (·.1) := by
+  unfold applySel
+  induction x.zip m with
+  | nil => rfl
+  | cons p l ih =>
+    simp only [ne_eq, ite_not, decide_not] at ih
+    by_cases hp : p.2 = 0 <;> simp [hp, ih]
+
+theorem applySel_flatten (A M : List (List Int)) (h : A.map List.length = M.map List.length) :
+    (List.zipWith applySel A M).flatten = applySel A.flatten M.flatten := by
+  induction A generalizing M with
+  | nil => cases M <;> simp [applySel] at h ⊢
+  | cons a A ih =>
+    cases M with
+    | nil => simp at h
+    | cons m M =>
+      simp only [List.map_cons, List.cons.injEq] at h
+      simp only [List.zipWith_cons_cons, List.flatten_cons, applySel_append a A.flatten m M.flatten h.1, ih M h.2]
+
+/-- a root that indexes one element-wise sub-expression by another (a boolean mask) -/
+def SelRoot (g : List NodeDef) (r : Nat) : Prop :=
+  ∃ (a mk : Nat), g[r]? = some (NodeDef.comp Fn.sel (Arg.node a) (Arg.node mk)) ∧
+    EwOn g (Reach g a) ∧ EwOn g (Reach g mk)
+
+/-- **`compute(node[mask_node])`, streamed = in memory**: selecting buffer by buffer with the mask's
+buffers and concatenating is selecting from the concatenated values with the concatenated mask, for
+every common cutting of the streams (the result's buffers have data-dependent lengths). -/
+theorem graph_filter_value (g : List NodeDef) (hg : WFG g) (hna : HasNodeArg g) (lens : List Nat) (ha : Aligned g lens)
+    (hpos : 0 < lens.length) (root fuel : Nat) (hsel : SelRoot g root) (hroot : root < g.length)
+    (hf : lens.length < fuel) :
+    ∃ v st, computeGraph g root fuel = .ok (v, st) ∧ evalMem g (root + 1) root = some v := by
+  have hch : ∀ (n : Nat) (cs : List (List Int)), g[n]? = some (NodeDef.stream cs) → cs.length = lens.length := by
+    intro n cs h
+    have := congrArg List.length (ha n cs h)
+    simpa using this
+  obtain ⟨vs, st, hc, hvs⟩ := graph_compute g hg hna root lens.length fuel hroot hpos hf hch
+  obtain ⟨a, mk, hd, hewa, hewm⟩ := hsel
+  have har : a < root := hg root _ hd a (by simp [nodeArgs, argNodes])
+  have hmr : mk < root := hg root _ hd mk (by simp [nodeArgs, argNodes])
+  obtain ⟨A, a1, a2, a3⟩ := node_chunks g hg hna lens ha (Reach g a) (fun n d hn hd m hm => Reach.step hn hd hm) hewa a
+    Reach.root (by omega)
+  obtain ⟨M, m1, m2, m3⟩ := node_chunks g hg hna lens ha (Reach g mk) (fun n d hn hd m hm => Reach.step hn hd hm) hewm mk
+    Reach.root (by omega)
+  have hAl : A.length = lens.length := by have := congrArg List.length a1; simpa using this
+  have hMl : M.length = lens.length := by have := congrArg List.length m1; simpa using this
+  have hval : ∀ i (h1 : i < A.length) (h2 : i < M.length), valAt g i (root + 1) root = some (applySel A[i] M[i]) := by
+    intro i h1 h2
+    simp only [valAt, hd, argValWith, har, hmr, ↓reduceIte]
+    rw [valAt_fuel2 g i root (a + 1) a har (by omega), a2 i h1, valAt_fuel2 g i root (mk + 1) mk hmr (by omega), m2 i h2]
+    simp [applyFn, Fn.elementwise]
+  have hmem : evalMem g (root + 1) root = some (applySel A.flatten M.flatten) := by
+    simp only [evalMem, hd, argValWith, har, hmr, ↓reduceIte]
+    rw [evalMem_fuel2 g root (a + 1) a har (by omega), a3, evalMem_fuel2 g root (mk + 1) mk hmr (by omega), m3]
+    simp [applyFn, Fn.elementwise]
+  have : vs = List.zipWith applySel A M := by
+    apply map_some_inj
+    rw [hvs]
+    apply List.ext_getElem
+    · simp [hAl, hMl]
+    · intro i h1 h2
+      simp only [List.length_map, List.length_range] at h1
+      simp only [List.getElem_map, List.getElem_range, List.getElem_zipWith]
+      exact hval i (by omega) (by omega)
+  subst this
+  refine ⟨_, st, hc, ?_⟩
+  rw [hmem, applySel_flatten A M (by rw [a1, m1])]
 
 
 /-- a graph with a stream shared by two parents, cut as [2, 1] -/
